@@ -2,6 +2,7 @@ import Driver.Util
 import Driver.Backoff
 import Driver.Wire
 import Driver.Codec
+import Driver.Topic
 
 /-! `drv`: one case per input line, one result per output line (see /verif/DESIGN.md, section 3.2). -/
 
@@ -12,6 +13,8 @@ def step (line : String) : String :=
   | "wdec" :: rest => Driver.Wire.run "wdec" rest
   | "benc" :: rest => Driver.Wire.run "benc" rest
   | "bdec" :: rest => Driver.Wire.run "bdec" rest
+  | "tn" :: rest => Driver.Topic.run "tn" rest
+  | "tc" :: rest => Driver.Topic.run "tc" rest
   | op :: rest =>
     if ["senc", "yenc", "sdec", "ydec", "bdc", "bre", "crt", "dcp"].contains op then Driver.Codec.run op rest
     else "bad-op"
